@@ -441,6 +441,21 @@ def deep_ops():
                      st.sampled_from(['F', 'A', 'AF', 'FA'])).map(tuple)
 
 
+def shared_value_sweep(tier, shard, nshards):
+    """every boundary-length name constructed / marshalled by every name-bearing class in
+    turn (forward and reverse class order): each result vs a fresh interpreter"""
+    from pbt.props import c13
+    out = []
+    slots = [(c, s) for c, s, _, _ in c13.NAME_SLOTS]
+    for v in ['a' * n for n in (127, 128, 200, 256, 257)] + ['a*b']:
+        for order in (slots, slots[::-1]):
+            for kind in ('construct', 'marshal'):
+                out.append({'ops': [[kind, {'kind': 'method', 'cls': c, 'ch': 1,
+                                            'args': {s: v}}] for c, s in order],
+                            'ladder': True})
+    return out[shard::nshards]
+
+
 def depth_ladders(tier, shard, nshards):
     """values of every nesting depth 1..128 coded one after the other - descending,
     ascending, and a shallow value after each deep one - so that a call refused (or
@@ -471,6 +486,20 @@ def invalid_bytes():
                          b'\x08\x00\x00\x00\x00\x00\x00\x00']))
 
 
+def shared_value_ops():
+    """the *same* few values offered to different classes / arguments within one history
+    (random arguments practically never coincide): names at the limits of the two name
+    domains, which are valid for one argument and invalid for another"""
+    from pbt.props import c13
+    pool = ['a' * n for n in (127, 128, 200, 255, 256, 257)] + ['a*b', 'ok', '']
+    slots = [(c, s) for c, s, _, _ in c13.NAME_SLOTS]
+    return st.builds(
+        lambda cs, v, kind: (kind, {'kind': 'method', 'cls': cs[0], 'ch': 1,
+                                    'args': {cs[1]: v}}),
+        st.sampled_from(slots), st.sampled_from(pool),
+        st.sampled_from(['construct', 'marshal']))
+
+
 def call_ops():
     frames = S.any_frame_cases(big_bodies=False)
     return st.one_of(
@@ -481,7 +510,8 @@ def call_ops():
         st.tuples(st.just('unmarshal_valid'), wire.wire_frames()),
         st.tuples(st.just('unmarshal_valid'), wire.wire_frames()),
         st.tuples(st.just('unmarshal_invalid'), invalid_bytes()),
-        prim_encode_ops(), prim_decode_ops(), refused_encode_ops(), deep_ops())
+        prim_encode_ops(), prim_decode_ops(), refused_encode_ops(), deep_ops(),
+        shared_value_ops())
 
 
 def history_cases(tier):
@@ -837,6 +867,11 @@ COMPONENTS = [
               shards={'quick': 8, 'thorough': 8},
               describe='every equal-comparing twin pair (numbers, decimals, fold twins, '
                        'proxies, int / str subclasses) x every encoder, both orders'),
+    Component('shared-values', check_history, cases=shared_value_sweep,
+              shards={'quick': 8, 'thorough': 8},
+              describe='one boundary-length name given to every name-bearing class in turn '
+                       '(construct / marshal, both class orders); each result vs a fresh '
+                       'interpreter'),
     Component('depth-ladders', check_history, cases=depth_ladders,
               shards={'quick': 8, 'thorough': 8},
               describe='tables / arrays of every nesting depth 1..128 decoded, encoded '
